@@ -25,6 +25,7 @@ def run(ctx):
     ctx.each(r02d, ctx, repo, T)
     ctx.each(flowalg.accumulator_rule, ctx, repo, "R02e")
     ctx.each(flowalg.must_store_rule, ctx, repo, "R02f")
+    ctx.each(r02g, ctx, repo)
 
 
 def _is_one(e):
@@ -348,3 +349,43 @@ def r02d(ctx, repo, T):
     for s, v in fl:
         good = isinstance(v, ast.Call) and ast.unparse(v.func) in ("max", "np.maximum") and any(_is_zero(a) for a in v.args)
         ctx.check(good, "R02d", fi, s, "flush flow is max(0, .)", "the flush link value `%s` is not bounded below by 0: a negative flush flow is a reverse flow" % ast.unparse(v))
+
+
+def r02g(ctx, repo):
+    ctx.rule("R02g", "the down-scaling factor belongs to the step: in every resolve_outflows the factor applied to the stock (and the total it derives from) is computed in this call from this step's link._cache values - no definition that reaches its use reads an attribute of self - and the method stores nothing on self except the per-step outflow cache that update() consumes")
+    n = 0
+    for ci, fi in K.family_methods(repo, "resolve_outflows"):
+        if K.is_noop(fi) or ci.name.startswith(("Junction", "ResidualJunction", "Source")):
+            continue
+        me = K.self_name(fi)
+        rd = K.rdefs(repo, fi)
+        # the statement that applies the factor: n = <factor> * self.vals[ti] / self._vals[:, ti]
+        uses = [s for s in own_nodes(fi.node) if isinstance(s, ast.Assign) and isinstance(s.targets[0], ast.Name) and isinstance(s.value, ast.BinOp) and isinstance(s.value.op, ast.Mult) and any(ast.unparse(x).startswith(("%s.vals[" % me, "%s._vals[" % me)) for x in (s.value.left, s.value.right))]
+        if len(uses) != 1:
+            ctx.fail("R02g", fi, fi.node, "%s.resolve_outflows: the statement applying the rescale factor to the stock was not found" % ci.name, stmt_text="rescale-use:%s" % ci.name)
+            continue
+        n += 1
+        fac = [x for x in (uses[0].value.left, uses[0].value.right) if not ast.unparse(x).startswith(("%s.vals[" % me, "%s._vals[" % me))][0]
+        seen, bad = set(), []
+        work = [(uses[0], nm.id) for nm in ast.walk(fac) if isinstance(nm, ast.Name)]
+        while work:
+            st, name = work.pop()
+            for d in rd.reaching_at_stmt(st, name):
+                ds = rd.def_stmt(d)
+                if ds is None or id(ds) in seen:
+                    continue
+                seen.add(id(ds))
+                v = ds.value if isinstance(ds, (ast.Assign, ast.AugAssign)) else None
+                if v is None:
+                    continue
+                for a in ast.walk(v):
+                    if isinstance(a, ast.Attribute) and astq.is_name(a.value, me) and a.attr not in ("vals", "_vals", "outlinks"):
+                        bad.append((ds, a))
+                    if isinstance(a, ast.Name) and a.id != name and a.id not in ("np", me):
+                        work.append((ds, a.id))
+                if isinstance(ds, ast.AugAssign) or any(isinstance(a, ast.Name) and a.id == name for a in ast.walk(v)):
+                    work.append((ds, name))
+        ctx.check(not bad, "R02g", fi, bad[0][0] if bad else uses[0], "the factor applied to the stock is computed from this step's requests", "`%s` feeds the rescale factor from `%s`, a value kept on the object between steps: when the requested outflows change (time-varying data, number transitions, programs) the old factor is applied and more people can leave than are present" % (norm(bad[0][0])[:60] if bad else "", ast.unparse(bad[0][1]) if bad else ""))
+        stores = [s for s, t, k, v in astq.stores(fi.node) if k in ("assign", "aug") and isinstance(astq.strip_subs(t), ast.Attribute) and astq.is_name(astq.strip_subs(t).value, me) and astq.strip_subs(t).attr not in ("_cached_outflow",)]
+        ctx.check(not stores, "R02g", fi, stores[0] if stores else fi.node, "nothing but the per-step outflow cache is stored on self", "`%s` keeps state on the compartment across steps: resolve_outflows must be a function of the current step only" % (norm(stores[0])[:70] if stores else ""), stmt_text="resolve-stores:%s" % ci.name)
+    ctx.require(n >= 2, "R02g: fewer resolve_outflows implementations (%d) than confirmed (2)" % n)
